@@ -34,6 +34,13 @@ def gen_examples(rng, exotic=None):
         else:
             ex += ['%s-%d' % (rng.choice('ABCD') * rng.randint(1, 2), rng.randint(0, 999)) for _ in range(n)]
             ex += [rng.choice(['ab-12', 'A1-7', 'Z-x', 'AA-٣'])for _ in range(rng.randint(1, 2))]
+    if rng.random() < 0.12:
+        # optional tails of very different lengths (with variableLengthFrags: fragments with minimum 0 and no maximum)
+        stem = rng.choice(['ab', 'ID', 'x-', 'q'])
+        tail = rng.choice(['c', '7', '0', 'z'])
+        ex = (list(ex) if rng.random() < 0.3 else []) + [stem + tail * k for k in rng.sample(range(0, 7), rng.randint(2, 4))]
+        if rng.random() < 0.5:
+            ex += [rng.choice(['cd', 'ef', 'gh']) + d for d in ('', '12', '1234')]
     return ex
 
 
@@ -45,7 +52,7 @@ def gen_opts(rng):
         o['strip'] = True
     if rng.random() < 0.25:
         o['remove_empties'] = True
-    if rng.random() < 0.25:
+    if rng.random() < 0.3:
         o['variableLengthFrags'] = True
     if rng.random() < 0.25:
         o['extra_letters'] = rng.choice(['_', '-', '.', '_-', '_.', '-.', '_.-'])
@@ -121,9 +128,15 @@ _D = re.compile(r'\d', FLAGS)
 _S = re.compile(r'\s', FLAGS)
 
 
-def char_table(strings):
+_D_ASCII = re.compile(r'[0-9]')
+
+
+def char_table(strings, ascii_digits=False):
+    """how re classifies every character that occurs: \\w, the digit class in force (\\d for the perl dialect, [0-9] for
+    every other dialect: Extractor.__init__ classifies with the class it will write), \\s"""
     chars = sorted({c for s in strings if s is not None for c in s})
-    return [[c, _W.match(c) is not None, _D.match(c) is not None, _S.match(c) is not None] for c in chars]
+    D = _D_ASCII if ascii_digits else _D
+    return [[c, _W.match(c) is not None, D.match(c) is not None, _S.match(c) is not None] for c in chars]
 
 
 def model_extract_op(examples, opts, form='list'):
@@ -137,7 +150,7 @@ def model_extract_op(examples, opts, form='list'):
          'vlf': bool(opts.get('variableLengthFrags')), 'extras': opts.get('extra_letters') or '',
          'tag': bool(opts.get('tag')), 'dialect': DIALECT_ID[opts.get('dialect', 'portable')],
          'max_patterns': opts.get('max_patterns'), 'min_strings': opts.get('min_strings_per_pattern', 1)}
-    return {'op': 'rx.extract', 'table': char_table(examples), 'opts': o, 'items': items}
+    return {'op': 'rx.extract', 'table': char_table(examples, ascii_digits=o['dialect'] != 0), 'opts': o, 'items': items}
 
 
 def nosampling(examples, opts, size):
